@@ -34,7 +34,9 @@ ASSUMPTIONS = ["every state-changing system call is issued by its own Python-lev
                "os._exit leaves on disk what kill -9 would (no buffer flush, no finally blocks)",
                "rename(2) is atomic; CLOCK_MONOTONIC is system wide"]
 SCENARIOS = ["import", "upgrade", "set", "reset_all", "reset_subset", "merge_hard", "merge_soft",
-             "set_rel", "merge_soft_rel", "set_dotdot"]
+             "set_rel", "merge_soft_rel", "set_dotdot",
+             # the first command after a package upgrade (outdated assets_version) edits the settings
+             "upgrade_reset_all", "upgrade_reset_subset", "upgrade_set"]
 PY = sys.executable
 
 
@@ -116,7 +118,7 @@ def _prepare_home(base, scenario):
     rc, info, err = child(home, ["import", "count"])
     assert rc == 0, (rc, err)
     evo = os.path.join(home, ".evo")
-    if scenario == "upgrade":
+    if scenario.startswith("upgrade"):
         cfg = json.load(open(os.path.join(evo, "settings.json")))
         for k in ("plot_split", "save_traj_in_zip", "ros_map_alpha_value"):
             cfg.pop(k)
